@@ -240,6 +240,8 @@ class SimHost:
             return s, [s]
         listen_fam = socket.AF_INET6 if self.ip6 else socket.AF_INET
         ls = FakeSocket(self, listen_fam, "", "listen")
+        if self.ip4 and self.ip6:
+            ls.dual = True  # type: ignore[attr-defined]  # IPV6_V6ONLY disabled: receives IPv4 traffic as well
         self.listen = [ls]
         self.respond = []
         if self.ip4:
